@@ -584,7 +584,8 @@ func NewEnv() *Env {
 	o3.OmitNil = true
 	o3.CreateKey = "^"
 	e.Opts = []*ojg.Options{&o1, &o2, &o3}
-	rec, err := alt.NewRecomposer("^", map[any]alt.RecomposeFunc{&RInner{}: nil, &RTagged{}: nil})
+	// RBoard alone: its element types (array-of-struct included) come with it
+	rec, err := alt.NewRecomposer("^", map[any]alt.RecomposeFunc{&RInner{}: nil, &RTagged{}: nil, &RBoard{}: nil})
 	if err != nil {
 		panic(err)
 	}
@@ -778,6 +779,12 @@ func (s *poolSubject) Exec(c *Call) (o Outcome) {
 		case "rec.Recompose":
 			var target RInner
 			v, err := s.env.Rec.Recompose(map[string]any{"a": c.Data.S, "b": c.Data.I, "c": []any{c.Val}}, &target)
+			o.Text = "V=" + Render(v) + " E=" + errText(err)
+		case "rec.Board":
+			// the Recomposer is new in every round: these are the FIRST Recompose calls into RBoard, made
+			// by several goroutines at once
+			var target RBoard
+			v, err := s.env.Rec.Recompose(boardData(c.Val), &target)
 			o.Text = "V=" + Render(v) + " E=" + errText(err)
 		case "oj.Unmarshal":
 			var target any
